@@ -42,6 +42,10 @@ SIGS = {
     "three": ("def check(node: {T}, errors: list[Error], settings: Settings) -> None:\n    _log('call', node, settings.verbose)\n    errors.append(ErrorInfo.from_node(node))", True, True),
     "two-noreturn": ("def check(node: {T}, errors: list[Error]):\n    _log('call', node)\n    errors.append(ErrorInfo.from_node(node))", True, False),
     "three-noreturn": ("def check(node: {T}, errors: list[Error], settings: Settings):\n    _log('call', node, settings.verbose)\n    errors.append(ErrorInfo.from_node(node))", True, True),
+    # what the body does with its own local names is the check's business: locals called like a service, closures, defaults
+    "two-local-named-settings": ("def check(node: {T}, errors: list[Error]) -> None:\n    settings = {'verbose': 1}\n    _log('call', node, settings['verbose'])\n    errors.append(ErrorInfo.from_node(node))", True, False),
+    "two-locals-and-closure": ("def check(node: {T}, errors: list[Error]) -> None:\n    config = 1\n    def helper(settings=None):\n        return config\n    _log('call', node, helper())\n    errors.append(ErrorInfo.from_node(node))", True, False),
+    "three-with-locals": ("def check(node: {T}, errors: list[Error], settings: Settings) -> None:\n    extra = settings.verbose\n    more = [extra]\n    _log('call', node, more[0])\n    errors.append(ErrorInfo.from_node(node))", True, True),
     "union": ("def check(node: {T} | StrExpr, errors: list[Error]) -> None:\n    _log('call', node)\n    errors.append(ErrorInfo.from_node(node))", True, False),
     "one-param": ("def check(node: {T}) -> None:\n    pass", False, False),
     "four-params": ("def check(node: {T}, errors: list[Error], settings: Settings, more: int) -> None:\n    pass", False, False),
@@ -209,6 +213,11 @@ def run(ctx: Ctx) -> None:
         order = ["C16", "GenNodes", "C16Sig"]
     except Exception as e:  # noqa: BLE001
         ctx.obligation("translate the check-function contract (loader.py, visitor.py, mapping.py)", False, f"{type(e).__name__}: {e}")
+        try:                # the search needs no model: the node classes as the running code has them
+            from refurb.visitor import METHOD_NODE_MAPPINGS
+            nodes = sorted({v.__name__ for v in METHOD_NODE_MAPPINGS.values()})
+        except Exception:  # noqa: BLE001
+            nodes = ["IntExpr", "NameExpr", "CallExpr", "ForStmt", "MypyFile"]
     b = coq.compile_props(ctx, gens, order)
     coq.record_build(ctx, b)
     signature_tie(ctx, nodes, bool(gens) and b.files.get("C16Sig", {}).get("rc") == 0)
